@@ -452,8 +452,17 @@ func flushLog() {
 			case v := <-logQueue:
 				v.writer.Write(v.value)
 			case <-syncDone.Done():
-				asyncCancel()
-				return
+				// An entry can be queued while the flush request is already pending; select
+				// then picks either case. Write what is still queued before reporting done.
+				for {
+					select {
+					case v := <-logQueue:
+						v.writer.Write(v.value)
+					default:
+						asyncCancel()
+						return
+					}
+				}
 			}
 		}
 	}
